@@ -266,8 +266,10 @@ impl TerminalRenderer {
     #[tracing::instrument(name = "[TerminalRenderer.frame]", level="debug", skip_all, fields(frame_count = %self.frame_count))]
     pub fn frame<T: Terminal + ?Sized>(&mut self, term: &mut T) -> Result<(), Error> {
         // clear hoisted locals
+        //
+        // NOTE: marks are reset at the end of the frame, so cells marked as damaged
+        //       by `clear` (or by `new` with `clear` flag) are repainted by this frame.
         self.images.clear();
-        self.marks.fill(CellMark::Empty);
 
         // First pass
         //
@@ -425,6 +427,7 @@ impl TerminalRenderer {
         self.frame_count += 1;
         std::mem::swap(&mut self.front, &mut self.back);
         self.front.clear();
+        self.marks.fill(CellMark::Empty);
 
         Ok(())
     }
